@@ -155,6 +155,12 @@ func (e *FieldExpression) Evaluate(ctx *Context, input system.Collection) (syste
 				}
 			}
 
+			// Element names with digits or acronyms (lethalDose50, carrierAIDC, requestURL, …)
+			// do not survive the snake_case conversion; the descriptors carry the exact FHIR
+			// (JSON) name of every element.
+			field = reflect.Descriptor().Fields().ByJSONName(e.FieldName)
+		}
+		if field == nil {
 			// Try again with "_value" added because sometimes Google protos do that
 			// for primitives like:
 			// Observation.ValueX.String --> Observation_ValueX_StringValue
@@ -225,9 +231,9 @@ func (e *FieldExpression) isEvaluable(msg proto.Message) bool {
 		return true
 	}
 
-	// Prevent snake_case fields, since all FHIRPath fields need to be in
-	// camelCase.
-	if strcase.ToLowerCamel(e.FieldName) != e.FieldName {
+	// Prevent snake_case (and capitalised) fields, since all FHIRPath fields need to be in
+	// camelCase. Acronyms inside a name (carrierAIDC) are fine.
+	if strings.Contains(e.FieldName, "_") || strcase.ToLowerCamel(e.FieldName[:1]) != e.FieldName[:1] {
 		return false
 	}
 
